@@ -331,7 +331,7 @@ def r16x_input_exchange(repo, sink):
             worst = worst or f"{desc}: exchange_info returns {got[1]!r}, not the info the input holds"
         else:
             # whichever attribute holds it: exactly one transform, from the delivered grid to the input's grid
-            trs = [v for v in o.fields.values() if isinstance(v, Sym) and v.op == "transform"]
+            trs = _reachable_transforms(o)
             if trs != [Sym("transform", G1, stored.fields["grid"])]:
                 worst = worst or f"{desc}: the grid transform kept by the input is {trs!r}, expected one from the source grid to the input's grid"
     sink.check(worst is None, "R15", "exchange_info:table", f,
@@ -339,6 +339,33 @@ def r16x_input_exchange(repo, sink):
                   "(upstream direction); the input holds the delivered info overridden by the requested fields; transform source grid -> input grid",
                bad=worst or "")
     sink.floor("R15", "Input.exchange_info scripted exchanges", cases, 20)
+
+
+def _reachable_transforms(o, depth=3):
+    """The transform values the input keeps, directly or wrapped in private helper objects / containers."""
+    out, seen = [], set()
+
+    def walk(v, d):
+        if isinstance(v, Sym):
+            if v.op == "transform":
+                out.append(v)
+            return
+        if d <= 0 or id(v) in seen:
+            return
+        seen.add(id(v))
+        if isinstance(v, (list, tuple)):
+            for x in v:
+                walk(x, d - 1)
+        elif isinstance(v, dict):
+            for x in v.values():
+                walk(x, d - 1)
+        elif hasattr(v, "fields") and isinstance(getattr(v, "fields"), dict) and v is not o:
+            for x in v.fields.values():
+                walk(x, d - 1)
+
+    for v in o.fields.values():
+        walk(v, depth)
+    return out
 
 
 def _prop(repo, it, o, name):
